@@ -421,17 +421,17 @@ example :
   refine ⟨by decide, by decide, by decide, by decide, ?_, by decide, by decide, by decide⟩
   exact ⟨by decide, by decide, by decide, by decide, by decide, trivial⟩
 
-/-- left-over timers in Idle are real: when the connection is lost in OpenSent, FSM.connection_failed re-arms the
-    connect-retry timer and does not cancel the (large) hold timer, and BGPPeering.connection_closed then sends the state
-    machine to Idle - Idle with THREE timers armed.  The waiting schedule of `wait_for_idle_hold` (the clock advances to the
-    first deadline, the left-over connect-retry timer fires and clears itself, the idle-hold timer fires) and the peer's
-    good behaviour then re-establish the session; the left-over hold timer is overwritten by the new session's. -/
+/-- a left-over timer in Idle is real: when the connection is lost in OpenSent, FSM.connection_failed re-arms the
+    connect-retry timer (and, since fix 582f4ce, cancels the large hold timer), and BGPPeering.connection_closed then sends
+    the state machine to Idle - Idle with the connect-retry and the idle-hold timer armed.  The waiting schedule of
+    `wait_for_idle_hold` (the clock advances to the first deadline, the left-over connect-retry timer fires and clears
+    itself, the idle-hold timer fires) and the peer's good behaviour then re-establish the session. -/
 example :
     let w := run exU (bootWorld exCfg) [.boot, .connOk 0, .lost 0]
     let coop : List Ev :=
       [.advance 90, .fire .retry, .fire .idleHold, .connOk 1, .chunk 1 (wireOf 1 exBody), .chunk 1 (wireOf 4 [])]
     w.sess.st = .idle ∧ w.sess.allowAuto = true ∧
-    w.sess.tm = { retry := some 90, hold := some 720, keepalive := none, idleHold := some 90 } ∧
+    w.sess.tm = { retry := some 90, hold := none, keepalive := none, idleHold := some 90 } ∧
     EnabledRun exU w coop ∧
     (run exU w coop).sess.st = .established ∧ (run exU w coop).sess.now = 90 ∧ (run exU w coop).sess.holdTime = 90 ∧
     (run exU w coop).sess.tm.hold = some (90 + 3 * 90) := by
